@@ -3,6 +3,7 @@ import EaselModel.Stats.Histogram
 import EaselModel.Stats.Fit
 import EaselModel.Stats.FitCG
 import EaselModel.Stats.Rootfinder
+import EaselModel.Stats.MinTrace
 /-! Line-protocol driver for the C11 model (histogram + maximum-likelihood fits) over `Float`. -/
 open EaselModel EaselModel.Proto EaselModel.Stats
 
@@ -109,19 +110,38 @@ def stepRoot (ws : List String) : String :=
     " | ".intercalate parts
   | _, _ => "bad-op"
 
-def stepMin (ws : List String) (op : String) : String :=
+def natList (l : List Nat) : String := if l.isEmpty then "-" else ",".intercalate (l.map toString)
+
+def hashList (l : List Float) : UInt64 := l.foldl (fun h x => fnv h x.toBits) 0xcbf29ce484222325
+
+def monoList : List Float → Bool
+  | a :: b :: t => decide (b ≤ a) && monoList (b :: t)
+  | _ => true
+
+def stepMin (ws : List String) (op : String) (xs : Array Float) : String :=
   let p := parseBitsList ((arg? ws "p").getD "-")
   let x0 := parseBitsList ((arg? ws (if op == "cgd" then "x0" else "ori")).getD "-")
-  match objFamily (α := Float) ((arg? ws "fam").getD "") p with
+  let fam := (arg? ws "fam").getD ""
+  let famO : Option ((Array Float → Float) × Option (Array Float → Array Float)) :=
+    match objFamily (α := Float) fam p with
+    | some r => some r
+    | none => (nllFamily fam xs p).map fun f => (f, none)
+  match famO with
   | none => "bad-op"
   | some (f, g) =>
     if x0.size < 1 then "bad-op" else
     let cfg := minCfgOf ws x0.size
     if op == "cgd" then
       let df := if (argNat? ws "grad").getD 0 != 0 then g else none
-      match (cgd cfg f df x0).1 with
+      let (r, tr) := cgdT cfg f df x0
+      match r.1 with
       | .hang => "fault hang"
-      | .res st x fx => s!"{st.name} fx={fb fx} x=" ++ (if st == .ok || st == .enohalt then bitsList x else "-")
+      | .res st x fx =>
+        let base := s!"{st.name} fx={fb fx} x=" ++ (if st == .ok || st == .enohalt then bitsList x else "-")
+        if (argNat? ws "nodat").getD 0 != 0 || !(st == .ok || st == .enohalt) then base else
+        let fxs := f x0 :: tr.rows.map (·.fx)
+        base ++ s!" it={tr.rows.length} nf0={tr.nfunc0} mono={b01 (monoList fxs)} hash={hex64 (hashList fxs)}" ++
+          s!" bn={natList (tr.rows.map (·.brackN))} rn={natList (tr.rows.map (·.brentN))} nf={natList (tr.rows.map (·.nfunc))}"
     else
       let d := parseBitsList ((arg? ws "d").getD "-")
       if d.size != x0.size then "bad-op" else
@@ -218,9 +238,9 @@ def step (s : S) (line : String) : S × String :=
     | _, _, _ => (s, "bad-op")
   | "sample" :: _ => (s, "unmodelled")
   | "root" :: _ => (s, stepRoot ws)
-  | "cgd" :: _ => (s, stepMin ws "cgd")
-  | "bracket" :: _ => (s, stepMin ws "bracket")
-  | "brent" :: _ => (s, stepMin ws "brent")
+  | "cgd" :: _ => (s, stepMin ws "cgd" s.xs)
+  | "bracket" :: _ => (s, stepMin ws "bracket" s.xs)
+  | "brent" :: _ => (s, stepMin ws "brent" s.xs)
   | "data" :: _ =>
     let xs := parseBitsList ((arg? ws "xs").getD "-")
     ({ s with xs := xs }, s!"ok n={xs.size}")
